@@ -193,7 +193,14 @@ type world struct {
 }
 
 func newWorld() (*world, error) {
-	dir, err := os.MkdirTemp("", "c16auth")
+	base := "" // prefer a memory-backed directory: every bbolt write is an fsync
+	if st, err := os.Stat("/dev/shm"); err == nil && st.IsDir() {
+		base = "/dev/shm"
+	}
+	dir, err := os.MkdirTemp(base, "c16auth")
+	if err != nil && base != "" {
+		dir, err = os.MkdirTemp("", "c16auth")
+	}
 	if err != nil {
 		return nil, err
 	}
